@@ -416,13 +416,21 @@ def ack_rule(rep, prog, cfg):
               "the ACK line is not parsed as the sequence code-and-index, current command, message text")
     # RawError fields <- positions of the parsed tuple
     exp = {"code": [0, 0], "command_index": [0, 1], "current_command": [1], "message": [2]}
-    for bb, i, s in b.stmts():
-        if s["k"] == "assign" and s["rv"]["k"] == "agg" and s["rv"]["agg"] == "adt" and s["rv"]["adt_name"].endswith("RawError"):
-            for fname, op in zip(s["rv"]["fields"], s["rv"]["ops"]):
-                path = tuple_path(b, op_local(op))
-                rep.check(path is not None and path[-len(exp[fname]):] == exp[fname] and len(path) >= len(exp[fname]) + 1, rule,
-                          "%s/RawError.%s<-%s" % (cfg, fname, path), b.loc(s["span"]),
-                          "ACK field %s is taken from position %s of the parsed tuple, expected …%s" % (fname, path, exp[fname]))
+    n_fields = 0
+    for fb in family(prog, b):          # the construction may sit in the mapping closure of `map(delimited(..), |..| RawError {..})`
+        in_closure = fb is not b
+        for bb, i, s in fb.stmts():
+            if s["k"] == "assign" and s["rv"]["k"] == "agg" and s["rv"]["agg"] == "adt" and s["rv"]["adt_name"].endswith(("RawError", "response::Error")):
+                for fname, op in zip(s["rv"]["fields"], s["rv"]["ops"]):
+                    if fname not in exp:
+                        continue
+                    path = tuple_path(fb, op_local(op))
+                    n_fields += 1
+                    need = len(exp[fname]) + (0 if in_closure else 1)
+                    rep.check(path is not None and path[-len(exp[fname]):] == exp[fname] and len(path) >= need, rule,
+                              "%s/RawError.%s<-%s" % (cfg, fname, path), fb.loc(s["span"]),
+                              "ACK field %s is taken from position %s of the parsed tuple, expected …%s" % (fname, path, exp[fname]))
+    rep.floor(rule, cfg + "/ACK fields tied to tuple positions", n_fields, 4)
     # error_code_and_index = [ number @ number ]  -> (code, index) positions 0/1 of separated_pair: inherent
     bs2 = body_by_name(prog, "mpd_protocol::parser::error_code_and_index")
     if len(bs2) == 1:
@@ -452,14 +460,31 @@ def ack_rule(rep, prog, cfg):
                     rep.check(not lossy, rule, "%s/Error.%s stored verbatim" % (cfg, fname), b3.loc(s["span"]),
                               "Error.%s passes through %s on its way from the parsed ACK line: the client no longer reports what the server sent "
                               "(only ownership conversions such as Box::from / to_owned keep the value)" % (fname, lossy), detail={"through": thr})
+    elif n_fields >= 4 and any(s2["k"] == "assign" and s2["rv"]["k"] == "agg" and norm(s2["rv"].get("adt_name", "")) == "mpd_protocol::response::Error"
+                               for fb in family(prog, b) for _, _, s2 in fb.stmts()):
+        # no borrowed intermediate: the ACK parser builds the owned Error itself, from the tuple positions checked above (the
+        # conversions passed on the way are ownership conversions only, or tuple_path would not have followed them)
+        rep.ok(rule, cfg + "/Error built by the ACK parser itself")
     else:
         rep.fail(rule + ".anchor", cfg + "/into_owned_error", "parser.rs", "RawError::into_owned_error not found")
 
 
 def tuple_path(body, local, depth=8):
-    """Field-index path of the place a local was moved/copied out of (through plain moves)."""
+    """Field-index path of the place a local was moved/copied out of (through plain moves and ownership conversions such as
+    `Box::from(x)` / `x.map(Box::from)`)."""
     for _ in range(depth):
         defs = [s for bb, i, s in body.stmts() if s["k"] == "assign" and s["place"]["l"] == local and not s["place"]["p"]]
+        cdefs = [t for bb, t in body.calls() if t["dest"]["l"] == local and not t["dest"]["p"]]
+        if not defs and len(cdefs) == 1 and cdefs[0]["args"]:
+            short = (callee_names(cdefs[0]) or ["?"])[0].rsplit("::", 1)[-1].split("::<")[0]
+            keep = short in KEEPS_VALUE
+            if short in ("map",) and len(cdefs[0]["args"]) == 2:
+                c = op_const(cdefs[0]["args"][1])
+                keep = c is not None and "fn" in c and norm(c["fn"]["name"]).rsplit("::", 1)[-1] in KEEPS_VALUE
+            if not keep or op_local(cdefs[0]["args"][0]) is None:
+                return None
+            local = op_local(cdefs[0]["args"][0])
+            continue
         if len(defs) != 1 or defs[0]["rv"]["k"] not in ("use", "ref"):
             return None
         p = op_place(defs[0]["rv"]["op"]) if defs[0]["rv"]["k"] == "use" else defs[0]["rv"]["place"]
@@ -653,6 +678,15 @@ def verbatim_rule(rep, prog, cfg, rule="C03.grammar"):
                               "%s/%s.%s carries the captured text unchanged" % (cfg, v, f), nb.loc(st["span"]),
                               "ParsedComponent::%s.%s is `%s`: not the text the line grammar captured passed through ownership conversions only%s"
                               % (v, f, terms.show(terms.canon(t)) if t is not None else "?", (" (%s changes it)" % ", ".join(lossy)) if lossy else ""))
+    # `map(parser, ParsedComponent::Variant)`: the constructor is handed the parser's output as it is
+    for bb, t in pc[0].calls():
+        if "nom::combinator::map" in callee_names(t) and len(t["args"]) == 2:
+            c2 = op_const(t["args"][1])
+            if c2 is not None and "fn" in c2 and "{constructor" in c2["fn"].get("def", "") and "parser::ParsedComponent::" in c2["fn"]["name"]:
+                v = norm(c2["fn"]["name"]).rsplit("::", 1)[-1]
+                for f in EXPECT.get(v, {}):
+                    seen.add((v, f))
+                    rep.ok(rule, "%s/%s.%s carries the captured text unchanged" % (cfg, v, f))
     want = {(v, f) for v, fs in EXPECT.items() for f in fs}
     rep.check(want <= seen, rule, cfg + "/component fields filled in the mapping closures", pc[0].loc(pc[0].span),
               "cannot see where %s are filled (idiom unknown: failing closed)" % sorted(want - seen))
